@@ -311,6 +311,26 @@ def notify_protocol(chk: Check, rule: str = "R05.2") -> None:
            "after storing the attribute a path reaches the exit without adding the instance "
            "back to its parent's index (or adds it before the store): %s"
            % (" -> ".join(cfg.describe_path(wit)) if wit else "-"), 3)
+    # between the discard and the re-add nothing may fail: an exception there leaves the instance
+    # in its collection but out of the index (the attribute keeps its old value)
+    between = set()
+    for dn in D:
+        between |= cfg.reachable(dn)
+    fallible = []
+    for n_, inf in cfg.info.items():
+        if n_ in between and n_ not in D and n_ not in A and n_ != s and inf.ast is not None \
+                and inf.kind in ("stmt", "test") and any(a_ in cfg.reachable(n_) for a_ in A):
+            for c_ in (x for x in ast.walk(inf.ast) if isinstance(x, (ast.Call, ast.Raise, ast.Assert))):
+                if isinstance(c_, ast.Call) and attr_path(c_.func) in ((f.self_name, "parent_getter"), ("setattr",)):
+                    continue
+                if isinstance(c_, ast.Call) and isinstance(c_.func, ast.Attribute) and \
+                        c_.func.attr in ("_index_add", "_index_discard"):
+                    continue
+                fallible.append(c_)
+    chk.ob(rule, key + ":nothing-fallible-between-discard-and-add", not fallible, f.loc(fallible[0]) if fallible else f.loc(),
+           "between _index_discard and _index_add the descriptor runs %s: if that raises, the instance "
+           "stays a member of its parent but is gone from the parent's index"
+           % (unparse(fallible[0])[:50] if fallible else ""), 2)
     # the parent is obtained from the declared getter
     getter_calls = [n for n in walk_no_nested(f.node) if isinstance(n, ast.Call)
                     and attr_path(n.func) == (f.self_name, "parent_getter")]
@@ -387,6 +407,17 @@ def tree_lookup(chk: Check, f: FuncInfo, site: TreeSite, sel: str, key: str, adj
     helper of the same kind; address variants are empty without an address"""
     chk.saw(f)
     k = f.qualname
+    if sel == "at":
+        # however it is written, an 'at' lookup cannot be derived from an 'on' lookup: 'on' drops
+        # zero-sized members, which 'at' must report
+        on_calls = [c for c in walk_no_nested(f.node) if isinstance(c, ast.Call) and isinstance(c.func, ast.Attribute)
+                    and (c.func.attr.endswith("_on") or c.func.attr.endswith("_on_offset") or c.func.attr == "nodes_on")]
+        on_calls += [c for c in walk_no_nested(f.node) if isinstance(c, ast.Call) and isinstance(c.func, ast.Name)
+                     and ("_on_" in c.func.id or c.func.id.endswith("_on"))]
+        chk.ob(rule, k + ":at-not-from-on", not on_calls, f.loc(on_calls[0]) if on_calls else f.loc(),
+               "%s answers an 'at' query through an 'on' lookup (%s): 'on' selects only members of non-zero "
+               "size, so zero-sized members whose address is in the range are lost"
+               % (k, unparse(on_calls[0].func) if on_calls else ""), 2)
     try:
         t = function_term(f)
     except OutsideFragment as e:
@@ -451,6 +482,14 @@ def delegation(chk: Check, cls: ClassInfo, name: str, over_ok: List[tuple], rule
     try:
         t = function_term(f)
     except OutsideFragment as e:
+        keyed = [x for x in walk_no_nested(f.node) if isinstance(x, (ast.DictComp, ast.SetComp)) or (
+            isinstance(x, ast.Call) and isinstance(x.func, ast.Name) and x.func.id in ("dict", "set", "frozenset"))]
+        if keyed:
+            chk.ob(rule, key + ":delegates", False, f.loc(keyed[0]),
+                   "%s collects its candidates in a dict/set (%s): members that compare or hash equal under "
+                   "that key collapse into one, so the union over the children loses results"
+                   % (key, unparse(keyed[0])[:60]), 2)
+            return
         chk.ob(rule, key + ":delegates", False, f.loc(), "%s is not a union over children (%s)" % (key, e),
                undecided=True)
         return
